@@ -164,7 +164,12 @@ class Switch(Evaluatable[V]):
                 raise e
             return _FallbackFor(self.default, self.dispatch)  # type: ignore  [arg-type]
 
-        if key not in self.lookup:
+        try:
+            known = key in self.lookup
+        except TypeError:  # an unhashable dispatch value cannot match any branch
+            known = False
+
+        if not known:
             if self.default is MISSING:
                 raise SwitchError(self.dispatch, key, self.lookup)  # type: ignore  [arg-type]
             return _DependsOn(self.default, self.dispatch)  # type: ignore  [arg-type]
